@@ -114,6 +114,27 @@ func (s *Solver) readLine() (string, error) {
 	return strings.TrimSpace(l), err
 }
 
+// CheckWith decides satisfiability of the conjunction of pcs and extra (nothing else is asserted).
+func (s *Solver) CheckWith(pcs []*Term, extra *Term, wantVars map[string]*Term) (SatResult, Model) {
+	t0 := time.Now()
+	s.send("(push 1)")
+	var sb strings.Builder
+	for _, c := range pcs {
+		s.declare(c)
+		a := "(assert " + SMT(c) + ")"
+		s.send(a)
+		if sb.Len() < 6000 {
+			sb.WriteString(a)
+			sb.WriteByte('\n')
+		}
+	}
+	s.Time += time.Since(t0)
+	res, m := s.Check(extra, wantVars)
+	s.lastSMT = sb.String() + s.lastSMT + "\n(check-sat)"
+	s.send("(pop 1)")
+	return res, m
+}
+
 // Check asks whether the current assertions plus extra are satisfiable. When
 // sat and wantVars != nil, the values of those variables are returned.
 func (s *Solver) Check(extra *Term, wantVars map[string]*Term) (SatResult, Model) {
@@ -160,7 +181,11 @@ func (s *Solver) Check(extra *Term, wantVars map[string]*Term) (SatResult, Model
 		var names []string
 		var scal []string
 		for n, v := range wantVars {
-			if v.Op == OpVar && s.declared[n] {
+			if v.Op == OpVar {
+				if !s.declared[n] {
+					s.declared[n] = true
+					s.send("(declare-const " + smtName(n) + " " + sortName(v.W) + ")")
+				}
 				names = append(names, n)
 				scal = append(scal, smtName(n))
 			}
